@@ -71,6 +71,39 @@ impl StorageEngine {
 //@@ body
 //@@ end
 
+// SREM (members taken at T = Vec<u8>; `member.as_ref()` -> as_slice, RT): exactly the named members leave; the reply counts those that were
+// there; a set that becomes empty ceases to exist as a key (with its deadline-index entry); a removal is marked for WATCH
+//@@ unit srem fn src/storage/engine.rs StorageEngine::srem
+//@@   params drop "db: DatabaseIndex" "members: &[T]" add "shard_guard: &mut DatabaseShard" "members: &[Vec<u8>]"
+//@@   rewrite R2
+//@@   rewrite RT "member.as_ref()" "member.as_slice()"
+//@@   rewrite RFOR 0 it
+//@@   loop 0
+//@@|     invariant set@ =~= old_set.difference(seq_set(members@, it.index@ as int)), old_set.finite(),
+//@@|         removed == old_set.len() - set@.len(), removed <= it.index@, it.index@ <= members@.len(), members@.len() <= usize::MAX,
+//@@   at "let mut removed = 0;"
+//@@| let ghost old_set = set@;
+//@@| proof { assert(members@.subrange(0, 0).to_set() =~= Set::<Vec<u8>>::empty()); }
+//@@   at "if set.remove(member.as_ref())"
+//@@| proof { lemma_seq_set_step(members@, it.index@ as int); vstd::set_lib::lemma_len_subset(set@, old_set); }
+//@@   at "let is_empty = set.is_empty();"
+//@@| proof { vstd::set_lib::lemma_len_subset(set@, old_set); if removed == 0 { vstd::set_lib::lemma_subset_equality(set@, old_set); } }
+    fn srem(&self, shard_guard: &mut DatabaseShard, key: &[u8], members: &[Vec<u8>]) -> (r: Result<usize>)
+        ensures
+            step_ok(eff(*old(shard_guard), key_of(key@)), sv(*final(shard_guard)), key_of(key@)),
+            coll_ok(eff(*old(shard_guard), key_of(key@))) ==> coll_ok(sv(*final(shard_guard))),
+            holds_non_set(eff(*old(shard_guard), key_of(key@)), key_of(key@)) ==> r is Err && unchanged(eff(*old(shard_guard), key_of(key@)), sv(*final(shard_guard))),
+            !eff(*old(shard_guard), key_of(key@)).data.contains_key(key_of(key@)) ==> r == Ok::<usize, FerrousError>(0) && unchanged(eff(*old(shard_guard), key_of(key@)), sv(*final(shard_guard))),
+            set_at(eff(*old(shard_guard), key_of(key@)), key_of(key@)) matches Some(m) ==> ({
+                let left = m.difference(seq_set(members@, members@.len() as int));
+                &&& r == Ok::<usize, FerrousError>((m.len() - left.len()) as usize)
+                &&& (left.len() == 0 ==> !sv(*final(shard_guard)).data.contains_key(key_of(key@)) && !sv(*final(shard_guard)).exp.contains_key(key_of(key@)))
+                &&& (left.len() != 0 ==> set_at(sv(*final(shard_guard)), key_of(key@)) == Some(left)
+                        && sv(*final(shard_guard)).data[key_of(key@)].metadata == eff(*old(shard_guard), key_of(key@)).data[key_of(key@)].metadata)
+            }),
+//@@ body
+//@@ end
+
 //@@ unit scard fn src/storage/engine.rs StorageEngine::scard
 //@@   params drop "db: DatabaseIndex" add "shard_guard: &mut DatabaseShard"
 //@@   rewrite R2
